@@ -5,11 +5,11 @@ MODEL_SHOW = "expected"
 DISAGREE_IS_VIOLATION = True   # acceptance: every issuer's arrivals per connection = its issue log
 HARNESS_TIMEOUT = 900
 RULE = ("fixed: front-local [push; response] and [3 pushes; response; 2 pushes] (F8); the same on room-1; chat-1, chat-2, room-1 and the front all "
-        "serving one connection; two clients on the same issuers; a request without target between others; MULTI-TARGET pushes (PushMessageByIds and channel broadcast) issued by the front and by back-ends to the requester, to the requester and other connections, to others only, with duplicate and unknown ids; MIXED SIZES WITHIN ONE ISSUE SEQUENCE: pushes padded [0, 6000, 0] + small response and [0,0,0] + 6000-byte response on the front and on room-1; multi-target sequences cycling through 0 / 7 / 4020 / 4096 / 9000 / 66000 / 70000 bytes with big responses; the same sequences issued while the client does not read and the socket buffers are already full (2500 x 3 kB first), so that tiny and big packets sit in the send queue together; STALLED CLIENT: the client does not read for 1.2 s (thorough: up to 2.5 s) while room-1 resp. the front issues 35000 (thorough: 30000-40000) pushes of 1 kB (0.8-2 kB) and the response - the run records whether the connection's 9999-slot send queue actually filled (tag send-queue-filled, read by reflection; it did in every such case); BURSTS: room-1, the front, chat-1 and chat-2 "
+        "serving one connection; two clients on the same issuers; a request without target between others; MULTI-TARGET pushes (PushMessageByIds and channel broadcast) issued by the front and by back-ends to the requester, to the requester and other connections, to others only, with duplicate and unknown ids; BOTH CLIENT SERIALIZERS (JSON and protobuf - OProto switches node/client/impls/config for the case; 40% of the random cases) and PUSHES WITHOUT CONTENT (a message with only default-valued fields: zero bytes on the wire under protobuf, '{}' under JSON) among other pushes, front-local and forwarded, single- and multi-target; MIXED SIZES WITHIN ONE ISSUE SEQUENCE: pushes padded [0, 6000, 0] + small response and [0,0,0] + 6000-byte response on the front and on room-1; multi-target sequences cycling through 0 / 7 / 4020 / 4096 / 9000 / 66000 / 70000 bytes with big responses; the same sequences issued while the client does not read and the socket buffers are already full (2500 x 3 kB first), so that tiny and big packets sit in the send queue together; STALLED CLIENT: the client does not read for 1.2 s (thorough: up to 2.5 s) while room-1 resp. the front issues 35000 (thorough: 30000-40000) pushes of 1 kB (0.8-2 kB) and the response - the run records whether the connection's 9999-slot send queue actually filled (tag send-queue-filled, read by reflection; it did in every such case); BURSTS: room-1, the front, chat-1 and chat-2 "
         "each issuing 3000 (thorough: up to 12000) pushes + response + pushes towards ONE connection concurrently, plain and with 300 B (thorough: 4000 B) "
         "payloads, thorough also with a slow reader (5-20 us per message, the 9999-slot send queue fills and the front blocks). random: 1-3 connections "
         "(7% slow readers), 2-12 pipelined requests with 0-5 (sometimes 20-220, every 25th case 1000-3500) pushes before and 0-3 after the response, "
-        "to the front / the keyed chat instance / room-1, routing key changed in between, payload padding up to 2 kB, one third of the sequences with PER-MESSAGE sizes drawn from 0, 1, 7, 100, 900, 3900, 4020, 4040, 4096, 5000, 6000, 9000, 20000, 66000, 70000 bytes (response size too), 3% short client stalls, one third of the requests pushing through PushMessageByIds / a channel to 0-4 connections (+ the requester half of the time). Every item carries issuer, tag, its padding size (compared at the client), "
+        "to the front / the keyed chat instance / room-1, routing key changed in between, payload padding up to 2 kB, one third of the sequences with PER-MESSAGE sizes drawn from 'no content', 0, 1, 7, 100, 900, 3900, 4020, 4040, 4096, 5000, 6000, 9000, 20000, 66000, 70000 bytes (response size too), 3% short client stalls, one third of the requests pushing through PushMessageByIds / a channel to 0-4 connections (+ the requester half of the time). Every item carries issuer, tag, its padding size (compared at the client), "
         "position and the issuer's issue counter. Non-trivial = at least one push arrived; distinct = distinct op lists.")
 TRUSTED_BASE = [
     "Coq 8.16.1 kernel + vm_compute (case evaluation, Examples, the F8 witness); no native_compute",
@@ -19,6 +19,7 @@ TRUSTED_BASE = [
 ]
 ASSUMPTIONS = [
     "issuers issue from their own service goroutine (one goroutine per service: C04), so `issue order` is program order",
+    "a push without content identifies nothing at the client: such pushes are matched by NUMBER per connection (nothing missing, nothing extra), the attributable items request by request and by issue counter",
     "a multi-connection push (PushMessageByIds / Channel.PushMessage with several ids) is one item per listed connection (a connection listed twice gets two copies with the same issue counter)",
     "acceptance is per issuer, connection and REQUEST (exact issued sequence), plus non-decreasing issue counters per issuer and connection across requests: the order in which one issuer serves requests of different connections is not determined by the client operations",
     "order ACROSS issuers is not constrained (any merge is accepted), nor between a front-local item and relayed items",
